@@ -199,6 +199,13 @@ def free_lines(rng, count):
         nctr, nlocks, ntasks = 3, 3, 4
         deps = rand_deps(rng, nlocks, ntasks)
         progs = []
+        if k % 4 == 2:
+            # hammer: many threads update the same counters back to back (lost updates show up
+            # in the final sums; LockFree::add has no yield hook, so this is its only tie)
+            progs = [[rng.choice(["lf:0:1", "lf:0:1", "lf:0:-2", "lf:1:3", "i:0", "d:0", "pa:0:3", "pi:1"]) for _ in range(400)]
+                     for _ in range(8)]
+            ops.append(line(2, nlocks, 2, nctr, deps, progs, "F", str(rng.randrange(10 ** 6))))
+            continue
         if k % 2 == 0:
             mode = "F"
             kinds = ["i", "d", "pi", "pa", "oa", "ps", "lf", "lf", "g", "f", "fb", "a"]
@@ -224,7 +231,7 @@ EXPECTED_TAGS = [
     "addLock>addLock", "addLock>addBody", "addUnlock>idle", "popLock>popLock", "popLock>popInit",
     "tryPopLock>idle", "tryPopLock>popInit", "popUnlockT>idle", "popUnlockN>idle",
     "cInc>idle", "cDec>idle", "cPostInc>idle", "cPreAdd>idle", "cPostAdd>idle", "cPreSub>idle", "cLoad>idle",
-    "lfLoad>lfCas", "lfCas>idle",
+    "lfLoad>lfCas", "lfCas>idle", "lfCas>lfCas",
 ]
 
 
